@@ -227,7 +227,7 @@ claim("C02", "proof",
       "volumes) and 2000-step conservation runs of A <-> B with diffusion for the three engines. The Python seam's marshalling "
       "cases (C04) are included.",
       "The lemmas L-sum, L-lin, L-pairing (algebra of finite sums) are proved in Lean 4 + Mathlib (lemmas/Sums.lean, re-checked on "
-      "every run); L-mates (induction over the edge list) is stated in DESIGN.md, not machine-checked. Equality of the swapped in/out constants of two mate slots follows from the Build_mesh_kd contract "
+      "every run), and so is L-mates (lemmas/Mates.lean). Equality of the swapped in/out constants of two mate slots follows from the Build_mesh_kd contract "
       "(C01, thorough tier) and the symmetry of the interface diffusivity; it is checked concretely (bit-identical) in the battery. 'Every recorded sample' follows with C09 (a record is a copy of the "
       "state). Deterministic engine: to rounding (A1 treats doubles as reals).",
       "deductive: symbolic interpretation of clang AST with loop invariants, ghost sums and callee contracts + SMT; bounded stand-in for interface pairing; sanitizer replay battery",
